@@ -16,6 +16,17 @@ def sh(cmd, **kw):
     return subprocess.run(cmd, shell=True, stdout=subprocess.PIPE, stderr=subprocess.STDOUT, text=True, **kw)
 
 
+def apply_patch(patch):
+    """git apply, falling back to patch(1) with fuzz when the tree has moved on since the seed was written"""
+    r = sh("git -C %s apply %s" % (WT, patch))
+    if r.returncode == 0:
+        return r
+    r2 = sh("cd %s && patch -p1 --fuzz=3 --no-backup-if-mismatch < %s" % (WT, patch))
+    if r2.returncode != 0:
+        sh("git -C %s checkout -- . && git -C %s clean -fdq" % (WT, WT))
+    return r2
+
+
 def ensure_wt():
     if not os.path.isdir(WT):
         r = sh("git -C /repo worktree add -q --detach %s HEAD" % WT)
@@ -40,7 +51,7 @@ def confirm(d):
     out = {}
     rc0, o0 = demo(WT, os.path.join(d, "demo.py"))
     out["demo_without"] = (rc0, o0[-200:])
-    r = sh("git -C %s apply %s" % (WT, patch))
+    r = apply_patch(patch)
     if r.returncode:
         out["apply"] = r.stdout
         print(json.dumps(out, indent=1))
@@ -66,7 +77,7 @@ def run(pids):
         pid = meta["property"]
         if pids and pid not in pids and os.path.basename(d) not in pids:
             continue
-        r = sh("git -C %s apply %s" % (WT, os.path.join(d, "patch.diff")))
+        r = apply_patch(os.path.join(d, "patch.diff"))
         if r.returncode:
             results.append((os.path.basename(d), pid, "APPLY-FAILED", r.stdout[-200:]))
             continue
